@@ -903,3 +903,7 @@ def finish(ctx):
   ctx.need("reused-operand-expressions", 500)
   ctx.flag("cov.operator_methods_in_library_table",
            len(list(OpMethod.get("all"))))
+
+
+from props import c01_x as _x, ext as _ext  # noqa: E402
+_ext.install(globals(), _x)
